@@ -30,7 +30,7 @@ type CaseC18 struct {
 	Ctor        int     `json:"ctor"`                    // 0 IOWriter, 1 IOWriteCloser, 2 IOWriter(PacketWriterFunc), 3 IOWriteCloser(NopCloser(func)), 4/5 as 0/1 with a packet writer that also has its own Write method
 	ErrWithData bool    `json:"err_with_data,omitempty"` // the failing reader reports its error together with the last bytes it delivers
 	ErrOnce     bool    `json:"err_once,omitempty"`      // ... and only once: later reads go on delivering data (a deadline, not a dead source)
-	ErrKind     int     `json:"err_kind"`                // error the failing reader returns: 0 plain, 1 timeout-like (Timeout() true), 2 os.ErrDeadlineExceeded, 3 io.ErrNoProgress, 4 wraps io.EOF, 5 wraps io.ErrUnexpectedEOF, 6 io.ErrUnexpectedEOF itself
+	ErrKind     int     `json:"err_kind"`                // error the failing reader returns: 0 plain, 1 timeout-like (Timeout() true), 2 os.ErrDeadlineExceeded, 3 io.ErrNoProgress, 4 wraps io.EOF, 5 wraps io.ErrUnexpectedEOF, 6 io.ErrUnexpectedEOF itself, 7 temporary but not a timeout (EINTR-like)
 	Reader      int     `json:"reader"`                  // 0 bytes.Reader 1 bufio 2 one-byte 3 half 4 data-with-EOF 5 chunks
 	Chunks      []int   `json:"chunks"`                  // for reader kind 5; a chunk of 0 is a Read that returns (0, nil) once, which io.Reader allows
 	BufSize     int     `json:"buf_size,omitempty"`      // for reader kind 1 (0 = 4096): bufio buffers smaller than a packet too
@@ -52,8 +52,8 @@ func genC18(t *rapid.T) CaseC18 {
 		c.FailAt = rapid.IntRange(0, c.Packets-1).Draw(t, "fail-at")
 		c.FailN = rapid.SampledFrom([]int{0, 0, 188, 10}).Draw(t, "fail-n")
 	}
-	c.Ctor = rapid.IntRange(0, 5).Draw(t, "ctor")
-	c.ErrKind = rapid.IntRange(0, 6).Draw(t, "err-kind")
+	c.Ctor = rapid.IntRange(0, 7).Draw(t, "ctor")
+	c.ErrKind = rapid.IntRange(0, 7).Draw(t, "err-kind")
 	c.ErrWithData = rapid.IntRange(0, 2).Draw(t, "err-with-data") == 0
 	c.ErrOnce = rapid.Bool().Draw(t, "err-once")
 	c.Reader = rapid.SampledFrom([]int{0, 1, 2, 3, 4, 5, 5, 5, 6}).Draw(t, "reader") // 6 = a regular file
@@ -115,9 +115,29 @@ type c18SinkW struct {
 
 func (s *c18SinkW) Write(p []byte) (int, error) { s.ownWrites++; return len(p), nil }
 
+// c18SinkWR additionally has a ReadFrom of its own (as a type that embeds a *bufio.Writer or an *os.File has): the adapter's
+// ReadFrom must still deliver packets through WritePacket.
+type c18SinkWR struct {
+	*c18SinkW
+	ownReads int
+}
+
+func (s *c18SinkWR) ReadFrom(r io.Reader) (int64, error) {
+	s.ownReads++
+	return io.Copy(io.Discard, r)
+}
+
 // the reader's own errors may wrap the io sentinels (errors.Is matches them, == does not): they are still its own errors
 var errC18WrapsEOF = fmt.Errorf("harness: connection reset: %w", io.EOF)
 var errC18WrapsUnexpectedEOF = fmt.Errorf("harness: short record: %w", io.ErrUnexpectedEOF)
+
+// c18TemporaryErr is what an interrupted system call looks like (syscall.EINTR): Temporary() but not Timeout(). It is the
+// reader's failure all the same.
+type c18TemporaryErr struct{}
+
+func (c18TemporaryErr) Error() string   { return "harness: interrupted system call" }
+func (c18TemporaryErr) Timeout() bool   { return false }
+func (c18TemporaryErr) Temporary() bool { return true }
 
 type c18TimeoutErr struct{}
 
@@ -140,6 +160,8 @@ func c18ReaderErr(kind int) error {
 	case 6:
 		// what a decompressing or length-framed reader reports for a truncated source: its own failure, not a clean end
 		return io.ErrUnexpectedEOF
+	case 7:
+		return c18TemporaryErr{}
 	}
 	return errC18Reader
 }
@@ -166,8 +188,12 @@ func c18Writer(c CaseC18, sink *c18Sink) packet.Writer {
 		return packet.IOWriteCloser(packet.NopCloser(packet.PacketWriterFunc(sink.WritePacket)))
 	case 4:
 		return packet.IOWriter(&c18SinkW{c18Sink: sink})
-	default:
+	case 5:
 		return packet.IOWriteCloser(&c18SinkW{c18Sink: sink})
+	case 6:
+		return packet.IOWriter(&c18SinkWR{c18SinkW: &c18SinkW{c18Sink: sink}})
+	default:
+		return packet.IOWriteCloser(&c18SinkWR{c18SinkW: &c18SinkW{c18Sink: sink}})
 	}
 }
 
